@@ -17,7 +17,7 @@ impl Monitor for C20 {
         vec![gen("histories", tier.pick(2_000, 1_000_000, 4)), gen("malformed", tier.pick(400, 200_000, 2))]
     }
     fn rule(&self) -> String {
-        "histories: a device runs a history of 4-12 transactions (MAC downlinks filling the pending answers to 0..15 bytes, confirmed downlinks, silent uplinks, rejected frames, Class C downlinks) from chosen counters (0, 0xFFFF, 0x10000, 2^32-2, None) and ADR counters (0, 63, 64, 95, 96); after EVERY step the session is serialised with serde_json, deserialised, re-serialised (must be identical text) and installed in a second device (nb: set_session in place and fresh device; async: new_with_session) which then runs the rest of the history plus a tail of 3 uplinks and a batch of fresh/replayed/stale downlinks in lock-step with the original: uplink bytes, responses, delivered payloads and the serialised session after every step must be identical. malformed: structural mutations of a valid document (drop/duplicate/rename field, wrong type, short/long arrays, pending_len 0..255, numbers at the u8/u16/u32 limits +-1, nesting, truncation at every byte): from_str must fail or yield a session on which a fixed operation battery never unwinds. Class = (session-state class at snapshot, mutation class, verdict).".into()
+        "histories: a device runs a history of 4-12 transactions (MAC downlinks filling the pending answers to 0..15 bytes, confirmed downlinks, silent uplinks, rejected frames, Class C downlinks) from chosen counters (0, 0xFFFF, 0x10000, 2^32-2, None) and ADR counters (0, 63, 64, 95, 96); after EVERY step the session is serialised with serde_json, deserialised, re-serialised (must be identical text) and installed in a second device (nb: set_session in place, set_session on a device object that lived through a session with other keys, and fresh device; async: new_with_session) which then runs the rest of the history plus a tail of 3 uplinks and a batch of fresh/replayed/stale downlinks in lock-step with the original: uplink bytes, responses, delivered payloads and the serialised session after every step must be identical. malformed: structural mutations of a valid document (drop/duplicate/rename field, wrong type, short/long arrays, pending_len 0..255, numbers at the u8/u16/u32 limits +-1, nesting, truncation at every byte): from_str must fail or yield a session on which a fixed operation battery never unwinds. Class = (session-state class at snapshot, mutation class, verdict).".into()
     }
     fn assumptions(&self) -> Vec<String> {
         vec![
@@ -29,7 +29,7 @@ impl Monitor for C20 {
         if tier == Tier::Sanitizer {
             vec!["restores_compared"]
         } else {
-            vec!["restores_compared", "pending_full_15", "pending_empty", "pending_partial", "ack_owed_at_snapshot", "fcnt_down_none_at_snapshot", "counter_at_16bit_boundary", "adr_cnt_ge_64", "malformed_rejected", "malformed_accepted_battery_ok", "steps_compared"]
+            vec!["restores_compared", "pending_full_15", "pending_empty", "pending_partial", "ack_owed_at_snapshot", "fcnt_down_none_at_snapshot", "counter_at_16bit_boundary", "adr_cnt_ge_64", "malformed_rejected", "malformed_accepted_battery_ok", "steps_compared", "restored_over_another_session"]
         }
     }
 
@@ -299,13 +299,29 @@ fn history_case(front: Front, reg: Reg, rng: &mut Prng, col: &mut Collector) {
             continue;
         }
         // ---- (2) restored twin(s) run the rest of the history -----------------------------------------
-        let variants: &[&str] = if front == Front::Nb { &["fresh", "in-place"] } else { &["fresh"] };
+        let variants: &[&str] = if front == Front::Nb { &["fresh", "in-place", "in-place-after-other-session"] } else { &["fresh"] };
         for variant in variants {
             let mut rb = Prng::new(seed);
             let mut b: Dev = if *variant == "fresh" {
                 let opts = DevOpts { rng_seed: Some(seed), ..Default::default() };
                 let creds = default_creds(&mut rb);
                 Dev::new_with_session(front, reg, creds, &opts, restored.clone())
+            } else if *variant == "in-place-after-other-session" {
+                // a device object that has lived through another session (other keys, one uplink built,
+                // one downlink checked) before the persisted one is installed in it
+                let opts = DevOpts { rng_seed: Some(seed), ..Default::default() };
+                let creds = default_creds(&mut rb);
+                let mut b2: Dev = Dev::new(front, reg, creds, &opts);
+                let other = Net { nwk: rb.arr(), app: rb.arr(), addr: rb.next_u32() };
+                b2.join_abp(other.nwk, other.app, other.addr);
+                let f = other.downlink(&Down { fcnt: 1, port: Some(3), payload: &[1, 2], ..Default::default() });
+                let _ = b2.transact(Action::Send { data: &[7], port: 2, confirmed: false }, &Script::rx1(f));
+                let _ = b2.take_downlinks();
+                if b2.set_session_json(&jv).is_err() {
+                    continue;
+                }
+                col.event("restored_over_another_session");
+                b2
             } else {
                 // a second original brought to the same point, then the session replaced in place
                 let Some((mut b2, _)) = mk(&mut rb) else { continue };
